@@ -15,7 +15,9 @@ The decoder models (coq/Wire/Decode.v, Unmarshal.v) are compared on every case a
 (5) "glue": bodies built from arbitrary (signature, bytes) with MarshalledMessageBody::from_parts: validate() must be
 "every top-level value validates and all bytes are used", MarshalledMessage::unmarshall_all and
 wire::unmarshal::unmarshal_body must accept exactly the same bodies (D30) and return what the dynamic decoder returns
-for every type of the signature in turn.
+for every type of the signature in turn. One body in four carries descriptors: `h` leaves whose indices are all below the
+message's descriptor count, or - some of them - not (then validate(), which does not know the count, may accept what the
+value decoders refuse; nothing else may differ).
 """
 import os
 
@@ -53,7 +55,7 @@ def run(ctx):
                        % (ncat, len(wg.catalogue_deep())),
                        "big stream: the decoder models are run only where they are fast enough (raw validation always; typed decoder on the memcpy "
                        "path; everything below 3000 tokens); elsewhere the implementation is compared with the known encoded value and the specification",
-                       "glue stream: bodies carry no descriptors"]
+                       "glue stream: the descriptors of a body are duplicates of stderr; only their number and the indices matter"]
     if not os.environ.get("VERIF_SKIP_PROOF"):
         ctx.try_proof()
     exe = vlib.harness_build(["wire"])["wire"]
@@ -222,8 +224,7 @@ def run(ctx):
             return
         for ci, o in zip(sus, sus_out):
             st, n, toks = split_res(o)
-            tl = toks.split(" ") if toks else []
-            if st == "ok" and any(a == "h" and c.isdigit() and int(c) >= cases[ci][5] for a, c in zip(tl, tl[1:])):
+            if st == "ok" and any(x >= cases[ci][5] for x in _fd_indices(toks)):
                 dyn_fd.add(ci)
         ctx.count("variant_holds_descriptor_not_in_message", len(dyn_fd))
 
@@ -381,7 +382,8 @@ def run(ctx):
                 "corruption_classes. Stream 3: random bytes. Stream 4 (big): length fields >= 64 KiB, strings of 255..70000 bytes, 64..100 containers in "
                 "one array/dict, nesting at the limits, valid and with the big length field off by 1 / 8 / beyond 2^26. Stream 5 (glue, %d bodies): "
                 "validate(), unmarshall_all, unmarshal_body on bodies from from_parts: valid, with trailing bytes, truncated, corrupted, signature with "
-                "one type more or less, each at buf_offset 0 / 8 / 16 / 112 / 4096 (and 3 / 4: normalised). non-trivial = the type has a container or a text leaf, or the input is a corruption; distinct = distinct case lines"
+                "one type more or less, each at buf_offset 0 / 8 / 16 / 112 / 4096 (and 3 / 4: normalised); one body in four has `h` leaves and a "
+                "descriptor list that covers all / some / none of their indices. non-trivial = the type has a container or a text leaf, or the input is a corruption; distinct = distinct case lines"
                 % (per_type, ncat, len(classes), nglue))
 
 
@@ -396,17 +398,38 @@ def glue(ctx, exe, drv, thorough):
     are compared as the tie); unmarshall_all / unmarshal_body accept exactly then too (D30: they used to ignore bytes after
     the last value) and return the values of the dynamic decoder on every type in turn."""
     r = ctx.sub_rng("c03-glue")
-    cat = [ty for ty in wg.catalogue() if not wg.count_leaves(wg.parse_ext(ty), "h")]
+    cat = wg.catalogue()
+    hcat = [ty for ty in cat if wg.count_leaves(wg.parse_ext(ty), "h")]
     nbodies = 1500 if thorough else 300
-    bodies = []       # (bo, [types], [toks])
-    for _ in range(nbodies):
+    bodies = []       # (bo, [types], [toks], number of descriptors of the message)
+    for bi in range(nbodies):
         k = r.choice([0, 1, 1, 2, 2, 3])
-        tys = [r.choice(cat) for _ in range(k)]
-        bodies.append((r.choice(["le", "be"]), tys, [wg.gen_value(r, wg.parse_ext(ty))[0] for ty in tys]))
+        # one body in four carries descriptors: at least one type with an `h` leaf; containers are not empty there
+        with_fd = bi % 4 == 0
+        tys = [r.choice(hcat if with_fd and j == 0 else cat) for j in range(max(k, 1) if with_fd else k)]
+        r.shuffle(tys)
+        vals = [wg.ValGen(r, sizes=(1, 1, 2, 3)).gen(wg.parse_ext(ty)) if wg.count_leaves(wg.parse_ext(ty), "h") else wg.gen_value(r, wg.parse_ext(ty))[0]
+                for ty in tys]
+        nh = sum(wg.count_tag(v, "h") for v in vals)
+        # the message's descriptor count: every index in range (count = or > the number of leaves), or - one body in four with leaves -
+        # too few: the highest indices are out of range (count 0: all of them)
+        nf = 0
+        if nh:
+            nf = r.choice([nh, nh, nh + 1, nh + 3, max(nh - 1, 0), 0, r.randrange(nh + 1), 1])
+            # indices 0..nh-1 in wire order over the whole body, or all below a smaller modulus (descriptors used twice)
+            m = r.choice([nh, nh, max(1, nh // 2), 1])
+            seen = 0
+            for vi, v in enumerate(vals):
+                c = wg.count_tag(v, "h")
+                for j in range(c):
+                    v = wg.replace_leaf(v, "h", j, str((seen + j) % m))
+                seen += c
+                vals[vi] = v
+        bodies.append((r.choice(["le", "be"]), tys, vals, nf))
     # the body bytes: value i is encoded at the offset where value i-1 ended (rounds of specification calls)
     bufs = [b""] * nbodies
     for rnd in range(3):
-        idx = [i for i, (bo, tys, vs) in enumerate(bodies) if len(tys) > rnd]
+        idx = [i for i, b in enumerate(bodies) if len(b[1]) > rnd]
         ok, out, err = vlib.par_run_lines(drv, [], ["SE %s %d %s" % (bodies[i][0], len(bufs[i]), " ".join(bodies[i][2][rnd])) for i in idx])
         if not ok:
             ctx.tie_broken("extracted specification crashed (glue)", err)
@@ -415,10 +438,12 @@ def glue(ctx, exe, drv, thorough):
             f = fields("x " + o)
             bufs[i] += bytes.fromhex(f["spec"]) if f["spec"] != "-" else b""
     cases = []        # (kind, bo, sig, bytes, known: True = valid whole body, False = known invalid, None = decided by the single-value decoders)
-    for (bo, tys, vs), buf in zip(bodies, bufs):
+    nfd_of = {}       # case index -> descriptors of the message (0 when absent)
+    for (bo, tys, vs, nf), buf in zip(bodies, bufs):
         sig = "".join(wg.erased(wg.parse_ext(ty)) for ty in tys)
         if len(sig) > 255:
             continue
+        first = len(cases)
         cases.append(("valid", bo, sig, buf, True))
         cases.append(("trailing", bo, sig, buf + bytes(r.choice([0, 0, 1, 7, r.randrange(256)]) for _ in range(r.choice([1, 1, 2, 4, 8]))), None))
         if buf:
@@ -429,6 +454,12 @@ def glue(ctx, exe, drv, thorough):
         cases.append(("signature+1", bo, sig + more, buf, None))
         if len(tys) > 1:
             cases.append(("signature-1", bo, "".join(wg.erased(wg.parse_ext(ty)) for ty in tys[:-1]), buf, None))
+        if nf:
+            for ci in range(first, len(cases)):
+                nfd_of[ci] = nf
+        if "h" in sig:
+            ctx.count("glue:body-with-descriptors")
+            ctx.count("glue:descriptors-of-message=%s" % ("0" if nf == 0 else ">0"))
     for line in wg.corpus_lines("C03"):
         f = line.split(" ")
         if f[0].startswith("BODY"):
@@ -438,19 +469,20 @@ def glue(ctx, exe, drv, thorough):
     cases.append(("trailing", "le", "", b"\x07\x07", None))
     lines = []
     places = ["", "", "@8", "@16", "@112", "@4096", "@3", "@4"]
-    for kind, bo, sig, buf, known in cases:
+    for ci, (kind, bo, sig, buf, known) in enumerate(cases):
         sh, bh = sig.encode().hex() or "-", buf.hex() or "-"
+        nf = nfd_of.get(ci, 0)
         # where the body lives: from_parts behind n foreign bytes (buf_offset n; 3 and 4 are normalised to 0); the model has no offsets
         place = r.choice(places)
         if kind.startswith("corpus@"):
             kind, place = "corpus", kind[6:]
         ctx.count("glue-body-at:" + (place[1:] or "0"))
-        lines.append("BV%s %s 0 %s %s" % (place, bo, sh, bh))
-        lines.append("BA%s %s 0 %s %s" % (place, bo, sh, bh))
-        lines.append("BB%s %s 0 0 %s %s" % (r.choice(["", "@8", "@16", "@112"]), bo, sh, bh))
+        lines.append("BV%s %s %d %s %s" % (place, bo, nf, sh, bh))
+        lines.append("BA%s %s %d %s %s" % (place, bo, nf, sh, bh))
+        lines.append("BB%s %s 0 %d %s %s" % (r.choice(["", "@8", "@16", "@112"]), bo, nf, sh, bh))
         # the single-value decoders on the same input (an empty signature has no types: nothing to run)
         lines.append("VR %s 0 %s %s" % (bo, sig, bh) if sig else "CAT")
-        lines.append("UP %s 0 0 %s %s" % (bo, sig, bh) if sig else "CAT")
+        lines.append("UP %s 0 %d %s %s" % (bo, nf, sig, bh) if sig else "CAT")
     ok, out, err = vlib.par_run_lines(exe, [], lines, robust=True)
     if not ok:
         ctx.tie_broken("wire harness crashed (glue)", err)
@@ -462,7 +494,8 @@ def glue(ctx, exe, drv, thorough):
     # a corrupted variant signature may name a descriptor (`h`): validate() cannot know how many descriptors the message has,
     # the value decoders refuse index 0 of none. Allowed exactly when decoding with an unbounded descriptor count (model) succeeds
     # and the value holds a descriptor (the hypothesis of C03_agree_param_fds), as in the main stream.
-    sus = [ci for ci, c in enumerate(cases) if c[2] and "v" in c[2] and split_res(out[5 * ci + 3])[0] == "ok" and split_res(out[5 * ci + 4])[0] == "err"]
+    # The same holds for an `h` leaf of the signature itself whose index is not below the message's descriptor count.
+    sus = [ci for ci, c in enumerate(cases) if c[2] and ("v" in c[2] or "h" in c[2]) and split_res(out[5 * ci + 3])[0] == "ok" and split_res(out[5 * ci + 4])[0] == "err"]
     fd_in_variant = set()
     if sus:
         ok, sus_out, err = vlib.par_run_lines(drv, [], ["UP %s 0 4294967296 %s %s" % (cases[ci][1], cases[ci][2], cases[ci][3].hex() or "-") for ci in sus])
@@ -471,7 +504,7 @@ def glue(ctx, exe, drv, thorough):
             return 0
         for ci, o in zip(sus, sus_out):
             st, n, toks = split_res(o)
-            if st == "ok" and "h" in toks.split(" ")[::1] and any(a == "h" and c.isdigit() for a, c in zip(toks.split(" "), toks.split(" ")[1:])):
+            if st == "ok" and any(x >= nfd_of.get(ci, 0) for x in _fd_indices(toks)):
                 fd_in_variant.add(ci)
         ctx.count("glue:variant_holds_descriptor_not_in_message", len(fd_in_variant))
     for ci, (kind, bo, sig, buf, known) in enumerate(cases):
@@ -519,6 +552,22 @@ def glue(ctx, exe, drv, thorough):
             ctx.tie_broken("correspondence: decoder models and implementation differ (glue stream)",
                            "%s\nimpl: %s\nmodel: %s" % (lines[5 * ci + 4], out[5 * ci + 3:5 * ci + 5], mout[5 * ci + 3:5 * ci + 5]))
     return len(cases)
+
+
+def _fd_indices(tokstr):
+    """the descriptor indices of the `h` leaves of a sequence of values"""
+    toks = tokstr.split()
+    out = []
+
+    def f(tag, payload):
+        if tag == "h" and payload.isdigit():
+            out.append(int(payload))
+        return payload
+    pos = 0
+    while pos < len(toks):
+        t, pos = wg.parse_tokens(toks, pos)
+        wg.map_leaves(t, f)
+    return out
 
 
 def _has_multi_map(toks):
